@@ -1,5 +1,7 @@
 import FuModel.Proofs.Cmdline
 import FuModel.Proofs.Numeric
+import FuModel.Proofs.ExprConv
+import FuModel.Props.C01
 import FuModel.Spec.CmdlineRef
 
 /-!
@@ -58,6 +60,27 @@ theorem C11_unbalanced {P : Type} (ts : List (Tok P)) (h : balanced 0 ts = false
   | ok m =>
     have := run_balanced ts [] St.empty false m hr
     simp [h] at this
+
+/-- **The builder accepts exactly the sentences of the grammar** (and the empty expression):
+    rejection holds for the whole complement of the grammar, not for listed classes only.
+    `→` is the converse parser theorem (`Proofs/ExprConv.lean`), `←` is `C01_parse`. -/
+theorem C11_parser_exact {P : Type} (ts : List (Tok P)) :
+    (∃ m, buildTree ts = .ok m) ↔ (ts = [] ∨ ∃ l, WF l ∧ renderL l = ts) := by
+  constructor
+  · rintro ⟨m, h⟩; exact buildTree_sentence ts m h
+  · rintro (rfl | ⟨l, hl, rfl⟩)
+    · exact ⟨_, rfl⟩
+    · exact ⟨_, C01_parse l hl⟩
+
+/-- a non-empty token string that is not the rendering of a syntax tree of the grammar is refused -/
+theorem C11_not_a_sentence {P : Type} (ts : List (Tok P)) (hne : ts ≠ [])
+    (hn : ∀ l, WF l → renderL l ≠ ts) : Rejects (buildTree ts) := by
+  cases hr : buildTree ts with
+  | error e => exact rejects_error e
+  | ok m =>
+    rcases buildTree_sentence ts m hr with h | ⟨l, hl, h⟩
+    · exact absurd h hne
+    · exact absurd h (hn l hl)
 
 /-! ## the words: primaries and their operands -/
 
@@ -169,6 +192,14 @@ def outcome (v : Verdict) (walk : Outcome) : Outcome :=
     output, command and removal — is not started -/
 theorem C11_rejected_before_any_action (e : Ext) (argv : List Word) (walk : Outcome) (h : verdict e argv = .reject) :
     outcome (verdict e argv) walk = ⟨1, 1, false⟩ := by rw [h]; rfl
+
+/-- an accepted command line: every word was read (no unknown primary, every operand present
+    and valid) and the tokens form a sentence of the grammar or are empty -/
+theorem C11_accept_sound (e : Ext) (argv : List Word) (h : verdict e argv = .accept) :
+    ∃ ts, lex e .emacs none false (FuModel.Find.Run.parseLeading argv).rest = (ts, .done) ∧
+      (ts = [] ∨ ∃ l, WF l ∧ renderL l = ts) := by
+  obtain ⟨ts, m, h1, h2⟩ := verdict_accept e argv h
+  exact ⟨ts, h1, buildTree_sentence ts m h2⟩
 
 /-! ## the vocabulary -/
 
